@@ -29,10 +29,11 @@ End C19.
 (* the goroutine / registry side, over all schedules of the lifecycle transition system: a connection goroutine that has
    returned has closed its socket and is not registered; when Stop returns every one of them has returned *)
 Theorem C19_done_means_released : forall p t ls c, let s := lrun (init p t) ls in
-  List.In c (conns s) -> ct_st c = CDone -> ct_open c = false /\ (pc s <> PStop4 -> ~ List.In (ct_id c) (registry s) \/ exists c', List.In c' (conns s) /\ ct_id c' = ct_id c /\ ct_st c' = CRegistered).
+  List.In c (conns s) -> ct_st c = CDone -> ct_open c = false /\ ~ List.In (ct_id c) (registry s).
 Proof.
   intros p t ls c s Hc Hd. pose proof (reachable_inv p t ls) as I. fold s in I. split; [exact (i_done s I c Hc Hd)|].
-  intros _. destruct (List.in_dec Nat.eq_dec (ct_id c) (registry s)) as [Hin|Hni]; [right; exact (i_reg s I _ Hin)|left; exact Hni].
+  intros Hin. destruct (i_reg s I _ Hin) as (c' & Hc' & Eid & St).
+  pose proof (nodup_same_id (conns s) c' c (i_nodup s I) Hc' Hc Eid) as E. subst c'. rewrite Hd in St. discriminate.
 Qed.
 Theorem C19_failed_handshake_releases : forall s s' id, lstep s (LHandshakeFail id) = Some s' \/ lstep s (LReject id) = Some s' ->
   registry s' = registry s /\ (forall c, List.In c (conns s') -> ct_id c = id -> ct_st c = CDone /\ ct_open c = false).
